@@ -416,6 +416,13 @@ func (x *Exec) doCall(st *State, ins ssa.Instruction, c *ssa.CallCommon, d *defe
 			x.oblige(st, "before", label, t, ins.Pos(), cl.Expr)
 		}
 	}
+	var callPre *State
+	for _, ev := range x.ctrEvents() {
+		if ev.Kind == "on" && patMatch(ev.Pattern, names) {
+			callPre = st.clone()
+			break
+		}
+	}
 	var res Value
 	if b, ok := c.Value.(*ssa.Builtin); ok {
 		res = x.doBuiltin(st, ins, b, c, args)
@@ -432,6 +439,7 @@ func (x *Exec) doCall(st *State, ins ssa.Instruction, c *ssa.CallCommon, d *defe
 			continue
 		}
 		env := x.newEnv(st)
+		env.callPre = callPre
 		x.bindEventArgs(env, ev, args, rets)
 		// statements run in the order written; later ones see earlier assignments
 		nAssert := 0
@@ -461,6 +469,7 @@ func (x *Exec) doCall(st *State, ins ssa.Instruction, c *ssa.CallCommon, d *defe
 			}
 			st.ghost[a.Var] = coerce(nv, old.T)
 			env = x.newEnv(st)
+			env.callPre = callPre
 			x.bindEventArgs(env, ev, args, rets)
 		}
 	}
